@@ -74,10 +74,17 @@ func derefType(t types.Type) types.Type {
 }
 
 // localBase reports whether address value a is derived (through FieldAddr /
-// IndexAddr / Slice chains) from an allocation instruction for which inScope
-// returns true.
+// IndexAddr / Slice / append / phi chains) from an allocation instruction for which
+// inScope returns true.
 func localBase(a ssa.Value, inScope func(ssa.Instruction) bool) bool {
-	for depth := 0; depth < 20; depth++ {
+	return localBaseV(a, inScope, map[ssa.Value]bool{})
+}
+
+func localBaseV(a ssa.Value, inScope func(ssa.Instruction) bool, seen map[ssa.Value]bool) bool {
+	for depth := 0; depth < 40; depth++ {
+		if seen[a] {
+			return true // a cycle through phis contributes nothing new
+		}
 		switch x := a.(type) {
 		case *ssa.Alloc:
 			return inScope(x)
@@ -91,6 +98,22 @@ func localBase(a ssa.Value, inScope func(ssa.Instruction) bool) bool {
 			a = x.X
 		case *ssa.Slice:
 			a = x.X
+		case *ssa.Const:
+			return x.Value == nil // the nil slice: nothing to write through
+		case *ssa.Call:
+			// append(...) yields a fresh backing array in the model
+			if b, ok := x.Call.Value.(*ssa.Builtin); ok && b.Name() == "append" {
+				return inScope(x)
+			}
+			return false
+		case *ssa.Phi:
+			seen[a] = true
+			for _, e := range x.Edges {
+				if !localBaseV(e, inScope, seen) {
+					return false
+				}
+			}
+			return true
 		default:
 			return false
 		}
